@@ -2,6 +2,7 @@ package simrt
 
 import (
 	"fmt"
+	"reflect"
 )
 
 // Happens-before monitor.  The simulator implements every synchronisation
@@ -50,6 +51,7 @@ type varState struct {
 	hasW   bool
 	reads  []accessRec
 	atomic bool
+	keep   interface{}
 }
 
 type hbState struct {
@@ -58,6 +60,8 @@ type hbState struct {
 	firstMsg string
 	firstSig string
 	atomics  map[interface{}]VC
+	firstMapMsg string
+	firstMapSig string
 }
 
 func newHB() *hbState {
@@ -224,4 +228,82 @@ func AtomicSync(p interface{}, acquire, release bool) {
 	if release {
 		h.atomics[p] = s.Release(h.atomics[p])
 	}
+}
+
+// ClassMapRace: an unordered pair of accesses to one map object of which at least
+// one is a write.  In a real process this is the Go runtime's unrecoverable "fatal
+// error: concurrent map read and map write" / "concurrent map writes" (whenever the
+// two accesses overlap), hence a crash of the host, not a benign race.
+const ClassMapRace = "map-race"
+
+type mapKey struct{ p uintptr }
+
+// MapAccess is the probe the instrumenter inserts before a statement that reads
+// (index, range) or writes (store, delete) a map, whatever the map hangs off
+// (package-level variable, struct field, local).
+func MapAccess(m interface{}, write bool, site int32) {
+	s := cur
+	if s == nil || s.aborting || s.hb == nil || m == nil {
+		return
+	}
+	v := reflect.ValueOf(m)
+	if v.Kind() != reflect.Map || v.IsNil() {
+		return
+	}
+	h := s.hb
+	t := s.cur
+	for len(t.vc) <= t.ID {
+		t.vc = append(t.vc, 0)
+	}
+	if t.vc[t.ID] == 0 {
+		t.vc[t.ID] = 1
+	}
+	k := mapKey{v.Pointer()}
+	vs := h.vars[k]
+	if vs == nil {
+		vs = &varState{name: v.Type().String(), keep: m} // keep the map alive: its address identifies it
+		h.vars[k] = vs
+	}
+	me := accessRec{t.ID, t.vc[t.ID], site}
+	ordered := func(a accessRec) bool {
+		return a.task == t.ID || (a.task < len(t.vc) && a.clock <= t.vc[a.task])
+	}
+	report := func(a accessRec, kind string) {
+		s.counters["map_races"]++
+		if h.firstMapMsg != "" {
+			return
+		}
+		x, y := SiteFunc(a.site), SiteFunc(me.site)
+		if y < x {
+			x, y = y, x
+		}
+		h.firstMapSig = "map-race@" + x + "|" + y
+		h.firstMapMsg = fmt.Sprintf("unordered %s on one %s: task %d at %s vs task %d (%s) at %s - in a real process: fatal error: concurrent map access",
+			kind, vs.name, a.task, SiteName(a.site), t.ID, t.Name, SiteName(me.site))
+	}
+	if vs.hasW && !ordered(vs.write) {
+		if write {
+			report(vs.write, "map write / map write")
+		} else {
+			report(vs.write, "map write / map read")
+		}
+	}
+	if write {
+		for _, r := range vs.reads {
+			if !ordered(r) {
+				report(r, "map read / map write")
+			}
+		}
+		vs.write, vs.hasW = me, true
+		vs.reads = vs.reads[:0]
+	} else {
+		for i, r := range vs.reads {
+			if r.task == t.ID {
+				vs.reads[i] = me
+				return
+			}
+		}
+		vs.reads = append(vs.reads, me)
+	}
+	s.counters["map_accesses"]++
 }
